@@ -247,7 +247,7 @@ def budget_of(aspec):
 @st.composite
 def run_case(draw, names=ALGOS, max_d=3, n_range=(100, 300), laws=None, T_max=None, T_min=1,
              extreme=False, full=False, script_prob=0.4, binary_children_only=False,
-             midpoint_bias=False, max_K=5, full_T_prob=0.34, **akw):
+             midpoint_bias=False, max_K=5, full_T_prob=0.34, vroom_nonbinary_ok=False, **akw):
     """A complete algorithm-run case."""
     name = draw(st.sampled_from(list(names)))
     dom = draw(domains(max_d=max_d, extreme=extreme))
@@ -255,6 +255,12 @@ def run_case(draw, names=ALGOS, max_d=3, n_range=(100, 300), laws=None, T_max=No
     bco = binary_children_only or name == "VROOM_binary"
     pspec = draw(partitions(max_K=max_K, binary_children_only=bco, d=d, midpoint_bias=midpoint_bias))
     aspec = draw(algo_spec(name, d, pspec, n_range=n_range, full=full, **akw))
+    if name == "VROOM" and arity(pspec, d) != 2:
+        # VROOM builds arity^floor(log2 n) cells at construction and then fails at the first
+        # pull (open finding D10): only C01 asks for such cases, and only bounded ones.
+        sd = int(math.floor(math.log2(aspec["params"]["n"])))
+        if not vroom_nonbinary_ok or arity(pspec, d) ** sd > 4096:
+            pspec = {"cls": draw(st.sampled_from(["BinaryPartition", "RandomBinaryPartition"]))}
     n = budget_of(aspec)
     hi = min(n, T_max) if T_max else n
     lo = min(T_min, hi)
